@@ -289,7 +289,7 @@ Qed.
 
 Definition inv (s : cst) : Prop :=
   (playing s = true -> st_writer s <> WNone /\ st_strans s <> None) /\
-  (playing s = false -> st_writer s = WNone /\ st_tcheck s = 0) /\
+  (playing s = false -> st_writer s = WNone /\ st_tcheck s <> 1) /\
   (st_state s <> SInitial -> st_conn s = true) /\
   (st_state s = SPrePlay -> st_strans s <> None).
 
@@ -305,7 +305,7 @@ Proof. unfold inv, st0, playing; cbn. repeat split; intros; try discriminate; co
 
 Record closed_post (s s' : cst) : Prop := {
   cp_conn : st_conn s' = false; cp_reader : st_reader s' = false; cp_listeners : st_listeners s' = 0;
-  cp_writer : st_writer s' = WNone; cp_tcheck : st_tcheck s' = 0;
+  cp_writer : st_writer s' = WNone; cp_tcheck : st_tcheck s' <> 1;
   cp_state : st_state s' = st_state s; cp_strans : st_strans s' = st_strans s;
   cp_medias : st_medias s' = st_medias s; cp_baseurl : st_baseurl s' = st_baseurl s;
   cp_lasturl : st_lasturl s' = st_lasturl s; cp_axis : st_axis s' = st_axis s;
@@ -318,7 +318,7 @@ Proof.
   unfold do_close. intros H (I1 & I2 & I3 & I4) W.
   set (s := wst w) in *.
   assert (X : exists s1, (if playing s then option_map stop_transport (destroy_writer s) else Some s) = Some s1 /\
-              st_writer s1 = WNone /\ st_tcheck s1 = 0 /\ st_conn s1 = st_conn s /\ st_reader s1 = st_reader s /\
+              st_writer s1 = WNone /\ st_tcheck s1 <> 1 /\ st_conn s1 = st_conn s /\ st_reader s1 = st_reader s /\
               st_state s1 = st_state s /\ st_strans s1 = st_strans s /\ st_medias s1 = st_medias s /\
               st_baseurl s1 = st_baseurl s /\ st_lasturl s1 = st_lasturl s /\ st_axis s1 = st_axis s /\
               st_ctx s1 = st_ctx s /\ st_back s1 = st_back s /\ st_std s1 = st_std s).
@@ -326,7 +326,7 @@ Proof.
     - destruct (I1 eq_refl) as (Wn & _). unfold destroy_writer.
       destruct (st_writer s) eqn:Ew; [congruence| |];
         (eexists; split; [reflexivity|]; unfold stop_transport; destruct s; cbn in *;
-         destruct st_reader; cbn; repeat split; reflexivity).
+         destruct st_reader; cbn; repeat split; try reflexivity; discriminate).
     - destruct (I2 eq_refl) as (Wn & Tc). exists s. repeat split; auto. }
   destruct X as (s1 & E1 & Xw & Xt & Xc & Xr & Xs & Xtr & Xm & Xb & Xl & Xa & Xx & Xbk & Xsd).
   rewrite E1 in H.
@@ -592,7 +592,7 @@ Proof.
   assert (Np : playing (wst w) = false) by (unfold playing; rewrite Ec; destruct FT as [FT|FT]; inversion FT; reflexivity).
   destruct (I2 Np) as (Wn & Tc).
   destruct w as [s sc n d]. cbn [wst] in *.
-  destruct s; cbn in *. subst st_state st_conn st_reader st_writer st_tcheck.
+  destruct s; cbn in *. subst st_state st_conn st_reader st_writer.
   destruct st_strans as [[p sec]|]; [|congruence].
   unfold start_transport in H; cbn in H.
   destruct FT as [FT|FT]; inversion FT; subst from to; cbn in H.
@@ -723,7 +723,7 @@ Lemma setup_all_spec cfg : forall ms w w' r,
   setup_all cfg ms w = (w', r) -> inv (wst w) -> wr (wst w) -> msafe cfg ms -> safe_switch cfg (wst w) ->
   post6 w w' r.
 Proof.
-  induction ms as [|cm t IH]; intros w w' r H Hi Hw Hm Ss; cbn in H.
+  induction ms as [|cm t IH]; intros w w' r H Hi Hw Hm Ss; cbn [setup_all] in H.
   - inversion H; subst. unfold post6. fin6.
   - inversion Hm as [|? ? Hs Ht]; subst.
     destruct (do_setup (S (length (wsc w))) cfg (smmedia cm) w) as [w1 r1] eqn:E1.
@@ -793,4 +793,697 @@ Proof.
   all: eapply CONT; [| | | | |exact H].
   all: try (destruct (xn2 cfg); rewrite ?upd_st; auto using inv_set_strans; fail).
   all: try (destruct (xn2 cfg); rewrite ?upd_st; destruct w3 as [s3 ? ? ?]; destruct s3; unfold wr, safe_switch in *; cbn in *; auto; congruence).
+Qed.
+
+Lemma inv_set_tcheck2 s : inv s -> inv (set_tcheck 2 s).
+Proof.
+  destruct s; unfold inv, playing; cbn. intros (A & B & C & D). repeat split; intros; auto; try discriminate;
+    try (apply A; auto); try (apply B; auto).
+Qed.
+
+Lemma do_idle_spec cfg rev w w' r :
+  do_idle cfg rev w = (w', r) -> inv (wst w) -> wr (wst w) ->
+  msafe cfg (st_medias (wst w)) -> safe_switch cfg (wst w) -> post6 w w' r.
+Proof.
+  intros H Hi Hw Hm Ss. unfold do_idle in H.
+  destruct (st_tcheck (wst w) =? 1) eqn:Et; cbn [negb] in H; [|inversion H; subst; unfold post6; fin6].
+  assert (Pl : playing (wst w) = true).
+  { destruct Hi as (_ & I2 & _). destruct (playing (wst w)) eqn:P; auto. destruct (I2 eq_refl) as (_ & X). lia. }
+  assert (Tr : st_strans (wst w) <> None) by (destruct Hi as (I1 & _); apply I1; exact Pl).
+  destruct (st_strans (wst w)) as [[p sec]|] eqn:Es; [|congruence].
+  destruct (udpish p); [|inversion H; subst; unfold post6; fin6].
+  destruct (negb (st_back (wst w)) && is_none (cproto cfg)) eqn:Eg; [|inversion H; subst; unfold post6; fin6].
+  apply Bool.andb_true_iff in Eg. destruct Eg as (_ & Cp).
+  assert (Ss' : st_lasturl (wst w) = true \/ xn1 cfg = true).
+  { destruct Ss as [S|[S|S]]; auto. destruct (cproto cfg); [discriminate|congruence]. }
+  destruct (try_switch cfg rev w) as [w1 r1] eqn:E1.
+  assert (Tr' : st_strans (wst w) <> None) by (rewrite Es; discriminate).
+  destruct (try_switch_spec _ _ _ _ _ E1 Hi Hw Tr' Hm Ss') as (Q1 & Q2 & Q3 & Q4 & Q5 & Q6).
+  destruct r1 as [u|e|]; try contradiction; inversion H; subst; clear H; unfold post6.
+  - specialize (Q4 I). rewrite upd_st. split6; auto using inv_set_tcheck2; try discriminate;
+      destruct w1 as [s1 ? ? ?]; destruct s1; unfold wk, wr in *; cbn in *; auto;
+      try (intros; rewrite Q4 in *; auto; discriminate).
+  - split6; auto.
+Qed.
+
+(* ---------- 3. the API: no panic, failures are sticky, Close releases everything ---------- *)
+
+Definition cl_ok (c : cl) : Prop :=
+  match cl_dead c with
+  | Some _ => True
+  | None => inv (wst (cl_w c)) /\ wr (wst (cl_w c)) /\ st_ctx (wst (cl_w c)) = false
+  end.
+
+(* side conditions under which the code as it is does not panic: (a) the control attribute of every media
+   that is set up resolves to a URL [F10], (b) a protocol switch finds a DESCRIBE to repeat [N1],
+   (c) Record is only called once a SETUP has succeeded [N3]. Every repair makes its condition trivial. *)
+Definition arg_ok (cfg : config) (a : api) (c : cl) : Prop :=
+  let s := wst (cl_w c) in
+  match a with
+  | ASetup i => (forall ms m, cl_desc c = Some ms -> nnth i ms = Some m -> safe_media cfg m) /\ safe_switch cfg s
+  | AIdle => msafe cfg (st_medias s) /\ safe_switch cfg s
+  | ARecord => xn3 cfg = true \/ st_strans s <> None
+  | _ => True
+  end.
+
+Lemma die_spec cfg e c w :
+  inv (wst w) ->
+  exists c', die cfg e c w = Some c' /\ cl_dead c' = Some e /\ ledger (wst (cl_w c')) = 0.
+Proof.
+  intros Hi. unfold die.
+  (* do_close under a cancelled context: the reader may already be gone *)
+  destruct (do_close cfg (upd (set_ctx true) w)) as [w1 r1] eqn:E1.
+  revert E1. unfold do_close. rewrite upd_st.
+  set (s := wst w) in *.
+  destruct Hi as (I1 & I2 & I3 & I4).
+  assert (X : exists s1, (if playing (set_ctx true s) then option_map stop_transport (destroy_writer (set_ctx true s)) else Some (set_ctx true s)) = Some s1 /\
+              st_writer s1 = WNone /\ st_ctx s1 = true /\ st_conn s1 = st_conn s).
+  { destruct s; unfold playing in *; cbn in *. destruct st_state; cbn in *;
+      try (destruct (I2 eq_refl) as (Wn & _); subst; eexists; split; [reflexivity|cbn; auto]);
+      try (destruct (I1 eq_refl) as (Wn & _); unfold destroy_writer; cbn;
+           destruct st_writer; [congruence| |]; cbn; eexists; (split; [reflexivity|]);
+           unfold stop_transport; cbn; destruct st_reader; cbn; auto). }
+  destruct X as (s1 & Ex & Xw & Xc & Xn). rewrite Ex.
+  set (w1' := upd (fun _ : cst => s1) (upd (set_ctx true) w)).
+  destruct (st_conn s1 && st_baseurl s1) eqn:G.
+  - (* TEARDOWN under a cancelled context: every wait returns at once *)
+    destruct (do_ cfg mTeardown false true w1') as [w2 r2] eqn:E2.
+    assert (NP : r2 <> Panic /\ st_writer (wst w2) = WNone).
+    { revert E2. unfold do_, pre_options, do_options. unfold w1'. rewrite !upd_st.
+      apply Bool.andb_true_iff in G. destruct G as (G1 & G2).
+      destruct (negb (st_optsent s1) && negb (mTeardown =? mOptions)) eqn:Eo.
+      - destruct (check_state pre_states s1); cbn [negb].
+        + unfold conn_open. rewrite upd_st, G1. unfold doA, do1. rewrite !upd_st.
+          rewrite G1, Xc. cbn [negb andb]. rewrite Bool.andb_false_r.
+          replace (mOptions =? mTeardown) with false by reflexivity.
+          destruct (pop mOptions _) as [wp evs] eqn:Ep.
+          intro E2. inversion E2; subst. split; [discriminate|].
+          pose proof (pop_st mOptions (upd (fun _ : cst => s1) (upd (set_ctx true) w))) as Ps.
+          rewrite Ep in Ps. cbn in Ps. rewrite upd_st, Ps. destruct s1; cbn in *; auto.
+        + intro E2. inversion E2; subst. split; [discriminate|]. rewrite !upd_st. exact Xw.
+      - unfold do1. rewrite !upd_st. rewrite G1. cbn [negb]. rewrite Bool.andb_false_r.
+        replace (mTeardown =? mTeardown) with true by reflexivity.
+        intro E2. cbn in E2. inversion E2; subst. split; [discriminate|]. rewrite !upd_st. exact Xw. }
+    destruct NP as (NP & Ww).
+    intro E1. destruct r2; try contradiction; inversion E1; subst;
+      (eexists; split; [reflexivity|split; [reflexivity|]]); cbn [cl_w];
+      rewrite upd_st; destruct w2 as [s2 ? ? ?]; destruct s2; cbn in *; subst; reflexivity.
+  - intro E1. inversion E1; subst. eexists; split; [reflexivity|split; [reflexivity|]]. cbn [cl_w].
+    unfold w1'. rewrite !upd_st. destruct s1; cbn in *; subst; reflexivity.
+Qed.
+
+Lemma alive_or_die cfg (w1 : W) (k : N) desc dn :
+  inv (wst w1) -> wk (wst w1) -> st_ctx (wst w1) = false ->
+  exists c', (if st_mustclose (wst w1)
+              then option_map (fun c2 => (c2, k)) (die cfg k (mkCl w1 None desc dn) w1)
+              else Some (mkCl w1 None desc dn, k)) = Some (c', k) /\ cl_ok c' /\
+             (cl_dead c' = None \/ (cl_dead c' = Some k /\ ledger (wst (cl_w c')) = 0)).
+Proof.
+  intros Hi Hk Hx. destruct (st_mustclose (wst w1)) eqn:M.
+  - destruct (die_spec cfg k (mkCl w1 None desc dn) w1 Hi) as (c' & E & D & L).
+    rewrite E. cbn. exists c'. unfold cl_ok. rewrite D. auto.
+  - eexists. split; [reflexivity|]. unfold cl_ok; cbn. split; [|left; reflexivity]. split3; auto.
+    unfold wr, wk in *. intro C. destruct (st_reader (wst w1)) eqn:R; auto. rewrite (Hk C eq_refl) in M. discriminate.
+Qed.
+
+Ltac finish_call w1 I1 WK X1 :=
+  cbv beta iota;
+  match goal with
+  | |- exists c' k, (if st_mustclose _ then option_map _ (die ?cfg ?k0 (mkCl _ _ ?d ?dn) _) else _) = _ /\ _ =>
+      let c' := fresh "c'" in let Ec := fresh "Ec" in let Oc := fresh "Oc" in
+      let Lc := fresh "Lc" in
+      destruct (alive_or_die cfg w1 k0 d dn I1 WK X1) as (c' & Ec & Oc & Lc);
+      exists c', k0; split3; [exact Ec|exact Oc|intros _ Hd; destruct Lc as [Lc|[_ Lc]]; [congruence|exact Lc]]
+  end.
+
+Lemma call_ok cfg nm rev a c :
+  cl_ok c -> arg_ok cfg a c ->
+  exists c' k, call cfg nm rev a c = Some (c', k) /\ cl_ok c' /\
+               (cl_dead c = None -> cl_dead c' <> None -> ledger (wst (cl_w c')) = 0).
+Proof.
+  intros Hc Ha. unfold call.
+  destruct (cl_dead c) as [e|] eqn:D.
+  { destruct a; try (exists c, e; split3; [reflexivity|exact Hc|discriminate]).
+    destruct (cl_desc c) as [ms|]; [|exists c, cSkipped; split3; [reflexivity|exact Hc|discriminate]].
+    destruct (nnth i ms); [|exists c, cSkipped; split3; [reflexivity|exact Hc|discriminate]].
+    destruct (existsb (N.eqb i) (cl_done c)); eexists; eexists; (split3; [reflexivity|exact Hc|discriminate]). }
+  unfold cl_ok in Hc. rewrite D in Hc. destruct Hc as (Hi & Hw & Hx).
+  destruct a.
+  - (* Options *)
+    destruct (do_options cfg false (cl_w c)) as [w1 r1] eqn:E.
+    destruct (do_options_spec _ _ _ _ E Hw) as (P & K & C & WK & WR).
+    assert (I1 : inv (wst w1)) by (eapply inv_frame; eauto).
+    assert (X1 : st_ctx (wst w1) = false) by (apply coreeq_fields in K; destruct K as (_&_&_&_&_&_&_&_&_&_&_&Kx); congruence).
+    destruct r1; try contradiction; finish_call w1 I1 WK X1.
+  - (* Describe *)
+    destruct (do_describe (S (length (wsc (cl_w c)))) cfg (xf11 cfg) false (cl_w c)) as [w1 r1] eqn:E.
+    destruct (do_describe_spec _ _ _ _ _ _ E Hi Hw) as (P & I1 & WK & WR & L & X).
+    cbn [snd].
+    assert (X1 : st_ctx (wst w1) = false) by congruence.
+    destruct r1; try contradiction; finish_call w1 I1 WK X1.
+  - (* Setup *)
+    destruct (cl_desc c) as [ms|] eqn:Ed; [|exists c, cSkipped; split3; [reflexivity|unfold cl_ok; rewrite D; auto|congruence]].
+    destruct (nnth i ms) as [m|] eqn:En; [|exists c, cSkipped; split3; [reflexivity|unfold cl_ok; rewrite D; auto|congruence]].
+    destruct (existsb (N.eqb i) (cl_done c)); [exists c, cSkipped; split3; [reflexivity|unfold cl_ok; rewrite D; auto|congruence]|].
+    destruct Ha as (Hm & Hs). specialize (Hm ms m Ed En).
+    destruct (do_setup (S (length (wsc (cl_w c)))) cfg m (cl_w c)) as [w1 r1] eqn:E.
+    destruct (do_setup_spec _ _ _ _ _ _ E Hi Hw Hm Hs) as (P & I1 & WK & WR & L & X).
+    assert (X1 : st_ctx (wst w1) = false) by congruence.
+    destruct r1; try contradiction; finish_call w1 I1 WK X1.
+  - (* Play *)
+    destruct (do_play cfg (cl_w c)) as [w1 r1] eqn:E.
+    destruct (do_play_spec _ _ _ _ E Hi Hw) as (P & I1 & WK & WR & L & X).
+    assert (X1 : st_ctx (wst w1) = false) by congruence.
+    destruct r1; try contradiction; finish_call w1 I1 WK X1.
+  - (* Record *)
+    destruct (do_record cfg (cl_w c)) as [w1 r1] eqn:E. unfold do_record in E.
+    assert (Hs : SPreRecord = SPrePlay \/ xn3 cfg = true \/ st_strans (wst (cl_w c)) <> None) by (right; exact Ha).
+    destruct (do_start_spec _ _ _ _ _ _ _ (or_intror eq_refl) E Hi Hw Hs) as (P & I1 & WK & WR & L & X).
+    assert (X1 : st_ctx (wst w1) = false) by congruence.
+    destruct r1; try contradiction; finish_call w1 I1 WK X1.
+  - (* Pause *)
+    destruct (do_pause cfg (cl_w c)) as [w1 r1] eqn:E.
+    destruct (do_pause_spec _ _ _ _ E Hi Hw) as (P & I1 & WK & WR & L & X).
+    assert (X1 : st_ctx (wst w1) = false) by congruence.
+    destruct r1; try contradiction; finish_call w1 I1 WK X1.
+  - (* Announce *)
+    destruct (do_announce cfg (cl_w c)) as [w1 r1] eqn:E.
+    destruct (do_announce_spec _ _ _ _ E Hi Hw) as (P & I1 & WK & WR & L & X).
+    cbn [snd].
+    assert (X1 : st_ctx (wst w1) = false) by congruence.
+    destruct r1; try contradiction; finish_call w1 I1 WK X1.
+  - (* Idle *)
+    destruct Ha as (Hm & Hs).
+    destruct (do_idle cfg rev (cl_w c)) as [w1 r1] eqn:E.
+    destruct (do_idle_spec _ _ _ _ _ E Hi Hw Hm Hs) as (P & I1 & WK & WR & L & X).
+    destruct r1 as [u|e|]; try contradiction.
+    + eexists; eexists; split3; [reflexivity| |cbn; congruence]. unfold cl_ok; cbn. split3; [exact I1|apply WR; exact I|congruence].
+    + destruct (die_spec cfg e (mkCl w1 None (cl_desc c) (cl_done c)) w1 I1) as (c' & Ec & Dc & Lc).
+      rewrite Ec. cbn. eexists; eexists; split3; [reflexivity| |intros; exact Lc]. unfold cl_ok. rewrite Dc. exact I.
+  - (* Close *)
+    destruct (die_spec cfg eTerminated c (cl_w c) Hi) as (c' & Ec & Dc & Lc).
+    rewrite Ec. cbn. eexists; eexists; split3; [reflexivity| |intros; exact Lc]. unfold cl_ok. rewrite Dc. exact I.
+Qed.
+
+(* the side conditions along a run *)
+Fixpoint run_ok (cfg : config) (nm : N) (rev : bool) (steps : list api) (c : cl) : Prop :=
+  match steps with
+  | [] => True
+  | a :: t => arg_ok cfg a c /\
+              match call cfg nm rev a c with
+              | Some (c1, _) => run_ok cfg nm rev t c1
+              | None => True
+              end
+  end.
+
+Definition cl_init (sc : script) (desc : option (list media)) : cl := mkCl (mkW st0 sc 0 false) None desc [].
+
+Lemma cl_init_ok sc desc : cl_ok (cl_init sc desc).
+Proof. unfold cl_ok, cl_init; cbn. split3; [exact inv_st0| |reflexivity]. unfold wr; cbn; discriminate. Qed.
+
+Lemma calls_ok cfg nm rev : forall steps c,
+  cl_ok c -> run_ok cfg nm rev steps c ->
+  exists c' ks, calls cfg nm rev steps c = Some (c', ks) /\ cl_ok c' /\ length ks = length steps.
+Proof.
+  induction steps as [|a t IH]; intros c Hc Hr; cbn [calls].
+  - exists c, []. auto.
+  - destruct Hr as (Ha & Hr).
+    destruct (call_ok cfg nm rev a c Hc Ha) as (c1 & k & E1 & O1 & _). rewrite E1 in *.
+    destruct (IH c1 O1 Hr) as (c2 & ks & E2 & O2 & L2). rewrite E2.
+    exists c2, (k :: ks). cbn. auto.
+Qed.
+
+(* once the run loop has ended every call returns closeError, consumes nothing and changes nothing *)
+Lemma dead_call_sticky cfg nm rev a c e :
+  cl_dead c = Some e ->
+  call cfg nm rev a c = Some (c, e) \/ (exists i, a = ASetup i /\ call cfg nm rev a c = Some (c, cSkipped)).
+Proof.
+  intro D. unfold call. rewrite D. destruct a; auto.
+  destruct (cl_desc c) as [ms|]; [|right; eauto].
+  destruct (nnth i ms); [|right; eauto].
+  destruct (existsb (N.eqb i) (cl_done c)); [right; eauto|auto].
+Qed.
+
+Lemma die_dead cfg e c w c' : die cfg e c w = Some c' -> cl_dead c' = Some e.
+Proof. unfold die. destruct (do_close cfg (upd (set_ctx true) w)) as [w1 [u|x|]]; intro H; inversion H; reflexivity. Qed.
+
+(* the error a dying call returns is the error every later call reports *)
+Lemma death_reports cfg nm rev a c c' k e :
+  cl_dead c = None -> call cfg nm rev a c = Some (c', k) -> cl_dead c' = Some e ->
+  e = k \/ (a = AClose /\ e = eTerminated).
+Proof.
+  intros D H D'. unfold call in H. rewrite D in H.
+  assert (FIN : forall (A : Type) (x : W * R A) (ds : R A -> option (list media)) (dn : R A -> list N),
+            match x with
+            | (_, Panic) => None
+            | (w1, r) =>
+              if st_mustclose (wst w1)
+              then option_map (fun c2 => (c2, class_of r)) (die cfg (class_of r) (mkCl w1 None (ds r) (dn r)) w1)
+              else Some (mkCl w1 None (ds r) (dn r), class_of r)
+            end = Some (c', k) -> e = k).
+  { intros A [w1 r] ds dn Hx. destruct r; try discriminate;
+      (destruct (st_mustclose (wst w1));
+       [ destruct (die cfg _ _ w1) as [c2|] eqn:Ed; cbn in Hx; [|discriminate];
+         inversion Hx; subst; apply die_dead in Ed; cbn [class_of] in *; congruence
+       | inversion Hx; subst; cbn in D'; discriminate ]). }
+  destruct a.
+  - left. eapply (FIN _ (do_options cfg false (cl_w c)) (fun _ => cl_desc c) (fun _ => cl_done c)).
+    destruct (do_options cfg false (cl_w c)) as [w1 [x|x|]]; exact H.
+  - left. cbv zeta in H.
+    eapply (FIN _ (do_describe (S (length (wsc (cl_w c)))) cfg (xf11 cfg) false (cl_w c))
+                (fun r => match r with Ok d => Some (dmedias d) | _ => cl_desc c end) (fun _ => cl_done c)).
+    destruct (do_describe (S (length (wsc (cl_w c)))) cfg (xf11 cfg) false (cl_w c)) as [w1 [x|x|]]; exact H.
+  - destruct (cl_desc c) as [ms|]; [|inversion H; subst; congruence].
+    destruct (nnth i ms) as [m|]; [|inversion H; subst; congruence].
+    destruct (existsb (N.eqb i) (cl_done c)); [inversion H; subst; congruence|].
+    left. eapply (FIN _ (do_setup (S (length (wsc (cl_w c)))) cfg m (cl_w c)) (fun _ => Some ms)
+                     (fun r => match r with Ok _ => i :: cl_done c | _ => cl_done c end)).
+    destruct (do_setup (S (length (wsc (cl_w c)))) cfg m (cl_w c)) as [w1 [x|x|]]; exact H.
+  - left. eapply (FIN _ (do_play cfg (cl_w c)) (fun _ => cl_desc c) (fun _ => cl_done c)).
+    destruct (do_play cfg (cl_w c)) as [w1 [x|x|]]; exact H.
+  - left. eapply (FIN _ (do_record cfg (cl_w c)) (fun _ => cl_desc c) (fun _ => cl_done c)).
+    destruct (do_record cfg (cl_w c)) as [w1 [x|x|]]; exact H.
+  - left. eapply (FIN _ (do_pause cfg (cl_w c)) (fun _ => cl_desc c) (fun _ => cl_done c)).
+    destruct (do_pause cfg (cl_w c)) as [w1 [x|x|]]; exact H.
+  - left. cbv zeta in H.
+    eapply (FIN _ (do_announce cfg (cl_w c))
+                (fun r => match r with Ok _ => Some (default_medias nm) | _ => cl_desc c end) (fun _ => cl_done c)).
+    destruct (do_announce cfg (cl_w c)) as [w1 [x|x|]]; exact H.
+  - left. destruct (do_idle cfg rev (cl_w c)) as [w1 [x|x|]]; try discriminate.
+    + inversion H; subst. cbn in D'. discriminate.
+    + destruct (die cfg x _ w1) as [c2|] eqn:Ed; cbn in H; [|discriminate].
+      inversion H; subst. apply die_dead in Ed. congruence.
+  - right. destruct (die cfg eTerminated c (cl_w c)) as [c2|] eqn:Ed; cbn in H; [|discriminate].
+    inversion H; subst. apply die_dead in Ed. split; congruence.
+Qed.
+
+(* ---------- 4. where the code as it is violates the property: concrete scripts ---------- *)
+
+Definition cfg_asis (p : option proto) (creds : bool) : config :=
+  mkCfg p creds false false false false false None false false false false.
+
+Definition rsimple (st : N) : resp := mkResp st SessAbsent false LocAbsent false None None.
+Definition r401 : resp := mkResp 401 SessAbsent true LocAbsent false None None.
+Definition r301 : resp := mkResp 301 SessAbsent false LocOk false None None.
+Definition rdescribe (ms : list media) : resp :=
+  mkResp 200 SessAbsent false LocAbsent false (Some (mkDescr 0 false false false ms)) None.
+Definition rsetup_tcp (a b : N) : resp :=
+  mkResp 200 SessOk false LocAbsent false None (Some (mkTh false true false 1 None (Some (a, b)) 0 false false)).
+Definition rsetup_udp : resp :=
+  mkResp 200 SessOk false LocAbsent false None (Some (mkTh false false false 1 (Some (5000, 5001)) None 0 false false)).
+Definition mOK : media := mkMedia CtlOk false false.
+Definition mNIL : media := mkMedia CtlNil false false.   (* a=control:trackID=%zz *)
+
+(* F10: credentials, OPTIONS answered 401 once, a control attribute ParseURL refuses *)
+Definition script_f10 : script :=
+  [(mOptions, [EvResp r401]); (mOptions, [EvResp (rsimple 200)]); (mDescribe, [EvResp (rdescribe [mNIL])])].
+Lemma f10_panics :
+  calls (cfg_asis None true) 1 false [ADescribe; ASetup 0] (cl_init script_f10 None) = None.
+Proof. vm_compute. reflexivity. Qed.
+
+(* F10 without credentials: the SETUP written with a nil URL is answered 401 *)
+Definition script_f10b : script :=
+  [(mOptions, [EvResp (rsimple 200)]); (mDescribe, [EvResp (rdescribe [mNIL])]); (mSetup, [EvResp (rsimple 401)])].
+Lemma f10b_panics :
+  calls (cfg_asis None false) 1 false [ADescribe; ASetup 0] (cl_init script_f10b None) = None.
+Proof. vm_compute. reflexivity. Qed.
+
+(* the same scripts are harmless once Media.URL returns the error *)
+Lemma f10_repaired :
+  exists c ks, calls (mkCfg None true false false false false true None false false false false) 1 false
+                 [ADescribe; ASetup 0] (cl_init script_f10 None) = Some (c, ks) /\ ks = [0; eURLParse].
+Proof. eexists; eexists. vm_compute. split; reflexivity. Qed.
+
+(* N1: ANNOUNCE + SETUP (the StartRecording flow), the UDP SETUP is answered with a TCP transport *)
+Definition script_n1 : script :=
+  [(mOptions, [EvResp (rsimple 200)]); (mAnnounce, [EvResp (rsimple 200)]); (mSetup, [EvResp (rsetup_tcp 0 1)]);
+   (mOptions, [EvResp (rsimple 200)]); (mDescribe, [EvResp (rdescribe [mOK])])].
+Lemma n1_panics :
+  calls (cfg_asis None false) 1 false [AAnnounce; ASetup 0] (cl_init script_n1 None) = None.
+Proof. vm_compute. reflexivity. Qed.
+
+(* N3: ANNOUNCE accepted, SETUP refused, Record() *)
+Definition script_n3 : script :=
+  [(mOptions, [EvResp (rsimple 200)]); (mAnnounce, [EvResp (rsimple 200)]); (mSetup, [EvResp (rsimple 404)])].
+Lemma n3_panics :
+  calls (cfg_asis None false) 1 false [AAnnounce; ASetup 0; ARecord] (cl_init script_n3 None) = None.
+Proof. vm_compute. reflexivity. Qed.
+
+(* N4: OPTIONS always 404; Describe, Setup, then a Describe that is redirected: the OPTIONS in front of
+   reset()'s TEARDOWN times out, the redirected DESCRIBE succeeds: the call returns success, the client is
+   dead with a nil closeError and the next call "succeeds" without doing anything *)
+Definition script_n4 : script :=
+  [(mOptions, [EvResp (rsimple 404)]); (mDescribe, [EvResp (rdescribe [mOK])]);
+   (mOptions, [EvResp (rsimple 404)]); (mSetup, [EvResp (rsetup_tcp 0 1)]);
+   (mOptions, [EvResp (rsimple 404)]); (mDescribe, [EvResp r301]);
+   (mOptions, []);
+   (mOptions, [EvResp (rsimple 404)]); (mDescribe, [EvResp (rdescribe [mOK])])].
+Lemma n4_nil_close_error :
+  exists c ks, calls (cfg_asis (Some PTCP) false) 1 false [ADescribe; ASetup 0; ADescribe; AOptions]
+                 (cl_init script_n4 None) = Some (c, ks) /\
+               ks = [0; 0; 0; 0] /\ cl_dead c = Some 0 /\ wsc (cl_w c) = [].
+Proof. eexists; eexists. vm_compute. split3; [reflexivity|reflexivity|split; reflexivity]. Qed.
+
+(* F11: n redirects make one Describe() send 2n+1 requests, for every n *)
+Fixpoint redirects (n : nat) : script :=
+  match n with
+  | O => []
+  | S k => (mOptions, [EvResp (rsimple 200)]) :: (mDescribe, [EvResp r301]) :: redirects k
+  end.
+
+Lemma describe_redirect_step f sc k :
+  do_describe (S f) (cfg_asis None false) None false
+     (mkW st0 ((mOptions, [EvResp (rsimple 200)]) :: (mDescribe, [EvResp r301]) :: sc) k false)
+  = do_describe f (cfg_asis None false) None false (mkW st0 sc (k + 1 + 1) false).
+Proof. reflexivity. Qed.
+
+Lemma describe_follows_all : forall n f k,
+  (n < f)%nat ->
+  exists w' r, do_describe f (cfg_asis None false) None false (mkW st0 (redirects n) k false) = (w', r) /\
+               wsent w' = k + 2 * N.of_nat n + 1.
+Proof.
+  induction n as [|n IH]; intros f k Hf.
+  - destruct f as [|f]; [lia|]. eexists; eexists. split; [reflexivity|]. cbn. lia.
+  - destruct f as [|f]; [lia|]. cbn [redirects]. rewrite describe_redirect_step.
+    destruct (IH f (k + 1 + 1) ltac:(lia)) as (w' & r & E & S). exists w', r. split; [exact E|]. lia.
+Qed.
+
+Lemma redirects_length n : length (redirects n) = (2 * n)%nat.
+Proof. induction n; cbn; lia. Qed.
+
+(* the handler behind Describe() (fuel = what Model.call gives it) sends 2n+1 requests on the script of n
+   redirects: no bound on the requests of one API call exists *)
+Lemma describe_requests_unbounded : forall n : nat,
+  exists sc w' r,
+    do_describe (S (length sc)) (cfg_asis None false) None false (mkW st0 sc 0 false) = (w', r) /\
+    wsent w' = 2 * N.of_nat n + 1.
+Proof.
+  intro n. exists (redirects n).
+  destruct (describe_follows_all n (S (length (redirects n))) 0) as (w' & r & E & S).
+  { rewrite redirects_length. lia. }
+  exists w', r. split; [exact E|]. lia.
+Qed.
+
+(* N2: every UDP SETUP is answered with a TCP transport, DESCRIBE alternates 200 / 301: one Setup() call *)
+Fixpoint setup_loop (n : nat) : script :=
+  match n with
+  | O => []
+  | S k => (mSetup, [EvResp (rsetup_tcp 0 1)]) ::
+           (mOptions, [EvResp (rsimple 200)]) :: (mDescribe, [EvResp r301]) ::
+           (mOptions, [EvResp (rsimple 200)]) :: (mDescribe, [EvResp (rdescribe [mOK])]) :: setup_loop k
+  end.
+Definition script_n2 (n : nat) : script :=
+  (mOptions, [EvResp (rsimple 200)]) :: (mDescribe, [EvResp (rdescribe [mOK])]) :: setup_loop n.
+
+Lemma n2_setup_loops :
+  exists c ks, calls (cfg_asis None false) 1 false [ADescribe; ASetup 0] (cl_init (script_n2 20) None) = Some (c, ks) /\
+               100 < wsent (cl_w c) /\ wsc (cl_w c) = [].
+Proof. eexists; eexists. vm_compute. split3; reflexivity. Qed.
+
+(* with the transport fixed after the re-DESCRIBE the same script ends the call after a handful of requests *)
+Lemma n2_repaired :
+  exists c ks, calls (mkCfg None false false false false false true (Some 10%nat) true true true true) 1 false
+                 [ADescribe; ASetup 0] (cl_init (script_n2 20) None) = Some (c, ks) /\ wsent (cl_w c) < 12.
+Proof. eexists; eexists. vm_compute. split; reflexivity. Qed.
+
+(* ---------- 5. how many requests one API call can write ---------- *)
+
+Lemma pop_sent m w : wsent (fst (pop m w)) = wsent w + 1.
+Proof. unfold pop; destruct (wsc w) as [|[m' evs] t]; reflexivity. Qed.
+
+Definition within (k : N) (w w' : W) : Prop := wsent w <= wsent w' /\ wsent w' <= wsent w + k.
+Lemma within_refl k w : within k w w. Proof. unfold within; lia. Qed.
+Lemma within_trans a b w1 w2 w3 : within a w1 w2 -> within b w2 w3 -> within (a + b) w1 w3.
+Proof. unfold within; lia. Qed.
+Lemma within_weaken a b w1 w2 : a <= b -> within a w1 w2 -> within b w1 w2.
+Proof. unfold within; lia. Qed.
+Lemma within_upd k f w w' : within k w w' -> within k w (upd f w').
+Proof. unfold within, upd; cbn; auto. Qed.
+Lemma within_of_upd k f w w' : within k (upd f w) w' -> within k w w'.
+Proof. unfold within, upd; cbn; auto. Qed.
+
+Lemma do1_cnt cfg m u skip w w' r :
+  do1 cfg m u skip w = (w', r) -> within (if m =? mTeardown then 0 else 1) w w'.
+Proof.
+  unfold do1. intro H.
+  destruct (st_sender (wst w) && u); [inversion H; subst; apply within_weaken with 0; [lia|apply within_refl]|].
+  destruct (negb (st_conn (wst w))); [inversion H; subst; apply within_weaken with 0; [lia|apply within_refl]|].
+  assert (P : forall w1 evs, (if m =? mTeardown then (w, []) else pop m w) = (w1, evs) ->
+              within (if m =? mTeardown then 0 else 1) w w1).
+  { intros w1 evs E. destruct (m =? mTeardown).
+    - inversion E; subst. apply within_refl.
+    - pose proof (pop_sent m w) as X. rewrite E in X. cbn in X. unfold within. lia. }
+  destruct (if m =? mTeardown then (w, []) else pop m w) as [w1 evs] eqn:Ep.
+  specialize (P _ _ eq_refl).
+  destruct skip; [inversion H; subst; exact P|].
+  destruct (st_ctx (wst w)); [inversion H; subst; apply within_upd; exact P|].
+  destruct (wait (st_frames (wst w)) evs) as [rr|e lost]; [|inversion H; subst; apply within_upd; exact P].
+  destruct (rsess rr); try (inversion H; subst; exact P);
+    (destruct (rstatus rr =? csm_status_unauthorized); [|inversion H; subst; exact P];
+     destruct u; [inversion H; subst; exact P|];
+     destruct (ccreds cfg && negb (st_sender (wst w))); [|inversion H; subst; exact P];
+     destruct (rauth rr); inversion H; subst; try apply within_upd; exact P).
+Qed.
+
+Lemma doA_cnt cfg u w w' r : doA cfg mOptions u w = (w', r) -> within 2 w w'.
+Proof.
+  unfold doA. intro H.
+  destruct (do1 cfg mOptions u false w) as [w1 r1] eqn:E1. pose proof (do1_cnt _ _ _ _ _ _ _ E1) as C1.
+  change (mOptions =? mTeardown) with false in C1.
+  destruct r1; try (inversion H; subst; apply within_weaken with 1; [lia|exact C1]).
+  destruct (do1 cfg mOptions u false w1) as [w2 r2] eqn:E2. pose proof (do1_cnt _ _ _ _ _ _ _ E2) as C2.
+  change (mOptions =? mTeardown) with false in C2.
+  destruct r2; inversion H; subst; apply (within_trans 1 1 _ _ _ C1 C2).
+Qed.
+
+Lemma conn_open_cnt w : within 0 w (conn_open w).
+Proof. unfold conn_open. destruct (st_conn (wst w)); [apply within_refl|apply within_upd, within_refl]. Qed.
+
+Lemma do_options_cnt cfg u w w' r : do_options cfg u w = (w', r) -> within 2 w w'.
+Proof.
+  unfold do_options. intro H.
+  destruct (check_state pre_states (wst w)); cbn [negb] in H;
+    [|inversion H; subst; apply within_weaken with 0; [lia|apply within_refl]].
+  destruct (doA cfg mOptions u (conn_open w)) as [w1 r1] eqn:E1.
+  pose proof (within_trans 0 2 _ _ _ (conn_open_cnt w) (doA_cnt _ _ _ _ _ E1)) as C1. cbn in C1.
+  destruct r1; try (inversion H; subst; exact C1).
+  destruct (rstatus r0 =? csm_status_ok); [inversion H; subst; apply within_upd; exact C1|].
+  destruct (rstatus r0 =? csm_status_not_found); inversion H; subst; exact C1.
+Qed.
+
+Lemma pre_options_cnt cfg m u w w' r : pre_options cfg m u w = (w', r) -> within 2 w w'.
+Proof.
+  unfold pre_options. intro H.
+  destruct (negb (st_optsent (wst w)) && negb (m =? mOptions)).
+  - destruct (do_options cfg u w) as [w1 r1] eqn:E1. pose proof (do_options_cnt _ _ _ _ _ E1) as C1.
+    destruct r1; inversion H; subst; exact C1.
+  - inversion H; subst. apply within_weaken with 0; [lia|apply within_refl].
+Qed.
+
+Lemma d1_result_w x : fst (d1_result x) = fst x.
+Proof. destruct x as [w r]; destruct r; reflexivity. Qed.
+
+Lemma do_cnt cfg m u skip w w' r :
+  do_ cfg m u skip w = (w', r) -> within (if m =? mTeardown then 4 else 6) w w'.
+Proof.
+  unfold do_. intro H.
+  destruct (pre_options cfg m u w) as [w0 r0] eqn:E0. pose proof (pre_options_cnt _ _ _ _ _ _ E0) as C0.
+  assert (B : 2 <= (if m =? mTeardown then 4 else 6)) by (destruct (m =? mTeardown); lia).
+  destruct r0; try (inversion H; subst; eapply within_weaken; [exact B|exact C0]).
+  destruct (do1 cfg m u skip w0) as [w1 r1] eqn:E1. pose proof (do1_cnt _ _ _ _ _ _ _ E1) as C1.
+  assert (C01 : within (if m =? mTeardown then 2 else 3) w w1).
+  { destruct (m =? mTeardown); [apply (within_trans 2 0 _ _ _ C0 C1)|apply (within_trans 2 1 _ _ _ C0 C1)]. }
+  destruct r1; try (cbn in H; inversion H; subst; eapply within_weaken; [|exact C01]; destruct (m =? mTeardown); lia).
+  destruct (pre_options cfg m u w1) as [w2 r2] eqn:E2. pose proof (pre_options_cnt _ _ _ _ _ _ E2) as C2.
+  destruct r2; try (inversion H; subst; pose proof (within_trans _ _ _ _ _ C01 C2) as X;
+                    eapply within_weaken; [|exact X]; destruct (m =? mTeardown); lia).
+  destruct (do1 cfg m u skip w2) as [w3 r3] eqn:E3. pose proof (do1_cnt _ _ _ _ _ _ _ E3) as C3.
+  pose proof (within_trans _ _ _ _ _ (within_trans _ _ _ _ _ C01 C2) C3) as X.
+  assert (w' = w3) by (pose proof (d1_result_w (w3, r3)) as Y; rewrite H in Y; exact Y). subst w'.
+  eapply within_weaken; [|exact X]. destruct (m =? mTeardown); lia.
+Qed.
+
+Lemma do_close_cnt cfg w w' r : do_close cfg w = (w', r) -> within 4 w w'.
+Proof.
+  unfold do_close. intro H.
+  destruct (if playing (wst w) then option_map stop_transport (destroy_writer (wst w)) else Some (wst w)) as [s1|];
+    [|inversion H; subst; apply within_weaken with 0; [lia|apply within_refl]].
+  destruct (st_conn s1 && st_baseurl s1).
+  - destruct (do_ cfg mTeardown false true (upd (fun _ : cst => s1) w)) as [w2 r2] eqn:E2.
+    pose proof (do_cnt _ _ _ _ _ _ _ E2) as C2. change (mTeardown =? mTeardown) with true in C2.
+    apply within_of_upd in C2.
+    destruct r2; inversion H; subst; try apply within_upd; exact C2.
+  - inversion H; subst. apply within_upd. apply within_upd.
+    apply within_weaken with 0; [lia|apply within_refl].
+Qed.
+
+Lemma reset_cnt cfg w w' r : reset cfg w = (w', r) -> within 4 w w'.
+Proof.
+  unfold reset. intro H. destruct (do_close cfg w) as [w1 r1] eqn:E1.
+  pose proof (do_close_cnt _ _ _ _ E1) as C1.
+  destruct r1; inversion H; subst; try apply within_upd; exact C1.
+Qed.
+
+Lemma do_start_cnt cfg from to m w w' r : do_start cfg from to m w = (w', r) -> within 6 w w'.
+Proof.
+  unfold do_start. intro H.
+  destruct (negb (check_state [from] (wst w))); [inversion H; subst; apply within_weaken with 0; [lia|apply within_refl]|].
+  destruct (xn3 cfg && is_none (st_strans (wst w))); [inversion H; subst; apply within_weaken with 0; [lia|apply within_refl]|].
+  destruct (start_transport (set_state to (wst w))) as [s1|];
+    [|inversion H; subst; apply within_weaken with 0; [lia|apply within_refl]].
+  destruct (do_ cfg m false false (upd (fun _ : cst => set_writer WCreated s1) w)) as [w2 r2] eqn:E2.
+  pose proof (do_cnt _ _ _ _ _ _ _ E2) as C2. apply within_of_upd in C2.
+  assert (C : within 6 w w2) by (eapply within_weaken; [|exact C2]; destruct (m =? mTeardown); lia).
+  destruct r2 as [[rr|]|e|]; try (inversion H; subst; exact C).
+  - destruct (rstatus rr =? csm_status_ok); [inversion H; subst; apply within_upd; exact C|].
+    destruct (destroy_writer (wst w2)); inversion H; subst; try apply within_upd; exact C.
+  - destruct (destroy_writer (wst w2)); inversion H; subst; try apply within_upd; exact C.
+Qed.
+
+Lemma do_pause_cnt cfg w w' r : do_pause cfg w = (w', r) -> within 6 w w'.
+Proof.
+  unfold do_pause. intro H.
+  destruct (negb (check_state [SPlay; SRecord] (wst w))); [inversion H; subst; apply within_weaken with 0; [lia|apply within_refl]|].
+  destruct (destroy_writer (wst w)) as [s1|]; [|inversion H; subst; apply within_weaken with 0; [lia|apply within_refl]].
+  destruct (do_ cfg mPause false false (upd (fun _ : cst => s1) w)) as [w2 r2] eqn:E2.
+  pose proof (do_cnt _ _ _ _ _ _ _ E2) as C2. apply within_of_upd in C2. change (mPause =? mTeardown) with false in C2.
+  destruct r2 as [[rr|]|e|]; try (inversion H; subst; try apply within_upd; exact C2).
+  destruct (rstatus rr =? csm_status_ok); inversion H; subst; apply within_upd; exact C2.
+Qed.
+
+Lemma do_announce_cnt cfg w w' r : do_announce cfg w = (w', r) -> within 6 w w'.
+Proof.
+  unfold do_announce. intro H.
+  destruct (negb (check_state [SInitial] (wst w))); [inversion H; subst; apply within_weaken with 0; [lia|apply within_refl]|].
+  assert (X : forall x, (match do_ cfg mAnnounce false false (conn_open w) with
+                 | (w1, Panic) => (w1, Panic)
+                 | (w1, Err e) => (w1, Err e)
+                 | (w1, Ok None) => (w1, Err eImpossible)
+                 | (w1, Ok (Some r)) =>
+                   if rstatus r =? csm_status_ok
+                   then (upd (fun s => set_state SPreRecord (set_baseurl true s)) w1, Ok tt)
+                   else (w1, Err eBadStatus)
+                 end) = x -> x = (w', r) -> within 6 w w').
+  { intros x Hx Hr. subst x.
+    destruct (do_ cfg mAnnounce false false (conn_open w)) as [w2 r2] eqn:E2.
+    pose proof (do_cnt _ _ _ _ _ _ _ E2) as C2. change (mAnnounce =? mTeardown) with false in C2.
+    pose proof (within_trans 0 6 _ _ _ (conn_open_cnt w) C2) as C. cbn in C.
+    destruct r2 as [[rr|]|e|]; try (inversion Hr; subst; exact C).
+    destruct (rstatus rr =? csm_status_ok); inversion Hr; subst; try apply within_upd; exact C. }
+  destruct (cproto cfg) as [[| |]|]; try (eapply X; [reflexivity|exact H]).
+  inversion H; subst. apply within_weaken with 0; [lia|apply within_refl].
+Qed.
+
+(* doDescribe with a redirect budget *)
+Lemma do_describe_cnt cfg : forall fuel k u w w' r,
+  do_describe fuel cfg (Some k) u w = (w', r) -> within (10 * (N.of_nat k + 1)) w w'.
+Proof.
+  induction fuel as [|f IH]; intros k u w w' r H.
+  { cbn in H. inversion H; subst. apply within_weaken with 0; [lia|apply within_refl]. }
+  cbn [do_describe] in H.
+  destruct (negb (check_state pre_states (wst w))); [inversion H; subst; apply within_weaken with 0; [lia|apply within_refl]|].
+  destruct (do_ cfg mDescribe u false (conn_open w)) as [w1 r1] eqn:E1.
+  pose proof (do_cnt _ _ _ _ _ _ _ E1) as C1. change (mDescribe =? mTeardown) with false in C1.
+  pose proof (within_trans 0 6 _ _ _ (conn_open_cnt w) C1) as C. cbn in C.
+  assert (B : forall wx, within 6 w wx -> within (10 * (N.of_nat k + 1)) w wx) by (intros; eapply within_weaken; [|eassumption]; lia).
+  destruct r1 as [[rr|]|e|]; try (inversion H; subst; apply B; exact C).
+  destruct (rstatus rr =? csm_status_ok).
+  - destruct (rdesc rr) as [d|]; [|inversion H; subst; apply B; exact C].
+    repeat (match type of H with (if ?b then _ else _) = _ => destruct b end;
+            try (inversion H; subst; try apply within_upd; apply B; exact C)).
+  - destruct ((csm_status_moved_permanently <=? rstatus rr) && (rstatus rr <=? csm_status_use_proxy) && negb (loc_absent (rloc rr)));
+      [|inversion H; subst; apply B; exact C].
+    destruct (reset cfg w1) as [w2 r2] eqn:E2. pose proof (reset_cnt _ _ _ _ E2) as C2.
+    pose proof (within_trans _ _ _ _ _ C C2) as C'.
+    assert (B' : within (10 * (N.of_nat k + 1)) w w2) by (eapply within_weaken; [|exact C']; lia).
+    assert (REC : forall nr, (if u then (w2, Panic) else
+                  match nr with
+                  | Some O => (w2, Err eTooManyRedirects)
+                  | Some (S k0) => do_describe f cfg (Some k0) false w2
+                  | None => do_describe f cfg None false w2
+                  end) = (w', r) -> nr = Some k -> within (10 * (N.of_nat k + 1)) w w').
+    { intros nr Hr En. subst nr. destruct u; [inversion Hr; subst; exact B'|].
+      destruct k as [|k0]; [inversion Hr; subst; exact B'|].
+      pose proof (IH _ _ _ _ _ Hr) as R. pose proof (within_trans _ _ _ _ _ C' R) as T.
+      eapply within_weaken; [|exact T]. lia. }
+    destruct r2 as [x|x|]; [| |inversion H; subst; exact B'];
+      (destruct (rloc rr); [apply (REC (Some k)); [exact H|reflexivity] | inversion H; subst; exact B' | apply (REC (Some k)); [exact H|reflexivity]]).
+Qed.
+
+Lemma die_cnt cfg e c w c' : die cfg e c w = Some c' -> within 4 w (cl_w c').
+Proof.
+  unfold die. destruct (do_close cfg (upd (set_ctx true) w)) as [w1 r1] eqn:E1.
+  pose proof (do_close_cnt _ _ _ _ E1) as C1. apply within_of_upd in C1.
+  destruct r1; intro H; inversion H; subst; exact C1.
+Qed.
+
+Definition simple_call (a : api) : bool :=
+  match a with AOptions | APlay | ARecord | APause | AAnnounce | AClose => true | _ => false end.
+
+Lemma fin_cnt cfg K w (A : Type) (x : W * R A) (ds : R A -> option (list media)) (dn : R A -> list N) c' k :
+  within K w (fst x) ->
+  match x with
+  | (_, Panic) => None
+  | (w1, r) =>
+    if st_mustclose (wst w1)
+    then option_map (fun c2 => (c2, class_of r)) (die cfg (class_of r) (mkCl w1 None (ds r) (dn r)) w1)
+    else Some (mkCl w1 None (ds r) (dn r), class_of r)
+  end = Some (c', k) -> within (K + 4) w (cl_w c').
+Proof.
+  destruct x as [w1 r]. cbn [fst]. intros C Hx.
+  destruct r; try discriminate;
+    (destruct (st_mustclose (wst w1));
+     [ destruct (die cfg _ _ w1) as [c2|] eqn:Ed; cbn in Hx; [|discriminate];
+       inversion Hx; subst; apply die_cnt in Ed; apply (within_trans _ _ _ _ _ C Ed)
+     | inversion Hx; subst; cbn [cl_w]; eapply within_weaken; [|exact C]; lia ]).
+Qed.
+
+(* every call other than Describe / Setup / the idle timer writes at most 10 requests, whatever the server
+   does; this holds for the code as it is *)
+Lemma simple_call_bounded cfg nm rev a c c' k :
+  simple_call a = true -> call cfg nm rev a c = Some (c', k) -> within 10 (cl_w c) (cl_w c').
+Proof.
+  intros Sa H. unfold call in H.
+  destruct (cl_dead c) as [e|] eqn:D.
+  { destruct a; try discriminate; inversion H; subst; apply within_weaken with 0; try lia; apply within_refl. }
+  destruct a; try discriminate.
+  - destruct (do_options cfg false (cl_w c)) as [w1 r1] eqn:E.
+    pose proof (do_options_cnt _ _ _ _ _ E) as C.
+    refine (within_weaken _ _ _ _ _ (fin_cnt cfg 2 (cl_w c) _ (w1, r1) (fun _ => cl_desc c) (fun _ => cl_done c) c' k C _)); [lia|].
+    destruct r1; exact H.
+  - destruct (do_play cfg (cl_w c)) as [w1 r1] eqn:E.
+    pose proof (do_start_cnt _ _ _ _ _ _ _ E) as C.
+    refine (within_weaken _ _ _ _ _ (fin_cnt cfg 6 (cl_w c) _ (w1, r1) (fun _ => cl_desc c) (fun _ => cl_done c) c' k C _)); [lia|].
+    destruct r1; exact H.
+  - destruct (do_record cfg (cl_w c)) as [w1 r1] eqn:E.
+    pose proof (do_start_cnt _ _ _ _ _ _ _ E) as C.
+    refine (within_weaken _ _ _ _ _ (fin_cnt cfg 6 (cl_w c) _ (w1, r1) (fun _ => cl_desc c) (fun _ => cl_done c) c' k C _)); [lia|].
+    destruct r1; exact H.
+  - destruct (do_pause cfg (cl_w c)) as [w1 r1] eqn:E.
+    pose proof (do_pause_cnt _ _ _ _ E) as C.
+    refine (within_weaken _ _ _ _ _ (fin_cnt cfg 6 (cl_w c) _ (w1, r1) (fun _ => cl_desc c) (fun _ => cl_done c) c' k C _)); [lia|].
+    destruct r1; exact H.
+  - cbv zeta in H. destruct (do_announce cfg (cl_w c)) as [w1 r1] eqn:E.
+    pose proof (do_announce_cnt _ _ _ _ E) as C.
+    refine (within_weaken _ _ _ _ _ (fin_cnt cfg 6 (cl_w c) _ (w1, r1)
+              (fun r => match r with Ok _ => Some (default_medias nm) | _ => cl_desc c end) (fun _ => cl_done c) c' k C _)); [lia|].
+    destruct r1; exact H.
+  - destruct (die cfg eTerminated c (cl_w c)) as [c2|] eqn:Ed; cbn in H; [|discriminate].
+    inversion H; subst. apply die_cnt in Ed. eapply within_weaken; [|exact Ed]. lia.
+Qed.
+
+(* with a redirect budget L, Describe() writes at most 10 (L+1) + 4 requests *)
+Lemma describe_call_bounded cfg nm rev c c' k L :
+  xf11 cfg = Some L -> call cfg nm rev ADescribe c = Some (c', k) ->
+  within (10 * (N.of_nat L + 1) + 4) (cl_w c) (cl_w c').
+Proof.
+  intros HL H. unfold call in H.
+  destruct (cl_dead c) as [e|] eqn:D.
+  { inversion H; subst. apply within_weaken with 0; try lia; apply within_refl. }
+  cbv zeta in H. rewrite HL in H.
+  destruct (do_describe (S (length (wsc (cl_w c)))) cfg (Some L) false (cl_w c)) as [w1 r1] eqn:E.
+  pose proof (do_describe_cnt _ _ _ _ _ _ _ E) as C.
+  refine (fin_cnt cfg _ (cl_w c) _ (w1, r1)
+            (fun r => match r with Ok d => Some (dmedias d) | _ => cl_desc c end) (fun _ => cl_done c) c' k C _).
+  destruct r1; exact H.
 Qed.
